@@ -93,11 +93,26 @@ def _m3d(job):
     if not np.allclose(lgi, 1.0/lg, rtol=1e-12, atol=0):
         obs.append("log mode: resistivity and conductivity give different "
                    "models")
+    # documented: volume averaging fills with the nearest values whatever
+    # `extrapolate` says
+    for lg_ in (False, True):
+        a = maps.interpolate(gi, v, go, method='volume', log=lg_,
+                             extrapolate=False)
+        b = lg if lg_ else lin
+        if not np.array_equal(a, b):
+            obs.append(f"method='volume' depends on extrapolate (log={lg_})")
     if lin.min() < v.min()*(1-1e-13) or lin.max() > v.max()*(1+1e-13):
         obs.append("result leaves the range of the input values")
     # Model.interpolate_to_grid picks log mode from the mapping
     mc = emg3d.Model(gi, v, mapping='Conductivity').interpolate_to_grid(go)
     mr = emg3d.Model(gi, 1/v, mapping='Resistivity').interpolate_to_grid(go)
+    try:
+        mc2 = emg3d.Model(gi, v, mapping='Conductivity').interpolate_to_grid(
+            go, extrapolate=False)
+        if not np.array_equal(mc2.property_x, mc.property_x):
+            obs.append("interpolate_to_grid depends on extrapolate")
+    except ValueError as e:
+        obs.append(f"interpolate_to_grid(extrapolate=False): {e}"[:120])
     if not np.allclose(mc.property_x, 1.0/mr.property_x, rtol=1e-12,
                        atol=0):
         obs.append("interpolate_to_grid differs between resistivity and "
